@@ -657,7 +657,7 @@ def tlsBackendOutcome (s : Scenario) (r : Route) : Outcome :=
   | _ => .closed
 
 /-- TLSRoute hostnames claimed on (port): older routes first; a hostname already claimed on the port is skipped -/
-def tlsClaims (s : Scenario) (g : Gateway) (port : Nat) : List (String × Route) :=
+def tlsClaims (s : Scenario) (g : Gateway) (port : Nat) : List (String × Route × String) :=
   let routes := (s.routes.filter fun r => r.kind == "TLSRoute" && tlsRouteAccepted r).mergeSort
     fun a b => !olderKey b.age b.ns b.name a.age a.ns a.name
   -- listeners from the most specific hostname to the least specific
@@ -665,7 +665,7 @@ def tlsClaims (s : Scenario) (g : Gateway) (port : Nat) : List (String × Route)
     fun a b => specificity (hostOf a) ≥ specificity (hostOf b)
   routes.foldl (fun acc r =>
     ls.foldl (fun acc l =>
-      (attachedHosts s g l r).foldl (fun acc h => if acc.any (·.1 == h) then acc else acc ++ [(h, r)]) acc) acc) []
+      (attachedHosts s g l r).foldl (fun acc h => if acc.any (·.1 == h) then acc else acc ++ [(h, r, hostOf l)]) acc) acc) []
 
 def route (rd : Reading) (s : Scenario) (req : Request) : Verdict :=
   if !classOurs s then ⟨.refused, false, []⟩
@@ -698,13 +698,19 @@ def route (rd : Reading) (s : Scenario) (req : Request) : Verdict :=
               -- passthrough listeners whose hostname covers the SNI take the connection
               let tlsLs := ls.filter fun l => l.proto == "TLS" && covers (hostOf l) req.sni
               if !tlsLs.isEmpty then
+                let pick (claims : List (String × Route × String)) : Outcome :=
+                  match mostSpecificHost (claims.map (·.1)) with
+                  | some h =>
+                    match claims.find? (·.1 == h) with
+                    | some c => tlsBackendOutcome s c.2.1
+                    | none => .closed
+                  | none => .closed
                 let claims := (tlsClaims s g req.port).filter fun c => covers c.1 req.sni
-                match mostSpecificHost (claims.map (·.1)) with
-                | some h =>
-                  match claims.find? (·.1 == h) with
-                  | some c => ⟨tlsBackendOutcome s c.2, false, []⟩
-                  | none => ⟨.closed, false, []⟩
-                | none => ⟨.closed, false, []⟩
+                -- Listener Isolation (SHOULD): only the claims made through the most specific covering listener
+                let isolated := match mostSpecificHost (tlsLs.map hostOf) with
+                  | some lh => pick (claims.filter fun c => c.2.2 == lh)
+                  | none => .closed
+                ⟨pick claims, false, [isolated]⟩
               else
                 let httpsLs := ls.filter fun l => l.proto == "HTTPS" && covers (hostOf l) req.sni
                 -- (N5) a client that sends no SNI is not served
